@@ -13,6 +13,13 @@ strip functions are parameters of the model (string trimming is not reasoned abo
 def joinPath (rstrip lstrip : String → String) (path p : String) : String :=
   if p == "" then path else rstrip path ++ "/" ++ lstrip p
 
+/-- `s.rstrip('/')` and `s.lstrip('/')` -/
+def rstripSlash (s : String) : String := String.ofList (s.toList.reverse.dropWhile (· == '/')).reverse
+def lstripSlash (s : String) : String := String.ofList (s.toList.dropWhile (· == '/'))
+
+/-- `utils.join_path(path, p)` as the code computes it -/
+def joinPathC (path p : String) : String := joinPath rstripSlash lstripSlash path p
+
 /-- the annotation heap: cells holding the lists users passed as `errors=[…]`; several methods may
 share one cell -/
 abbrev Heap := List (List Int)
